@@ -406,7 +406,7 @@ Proof.
 Qed.
 
 (* non-vacuity: a patch that sets the MTU, replaces bob and adds carol *)
-Definition ex_user (n pw : bytes) : user := mkUser (Some n) (Some pw) None [].
+Definition ex_user (n pw : bytes) : user := mkUser (Some n) (Some pw) None [] [].
 Definition ex_old : server_cfg :=
   mkServer (Some [mkPB (Some 2012%Z) (Some 2%Z) None]) [ex_user [98]%N [1]%N; ex_user [97]%N [2]%N] None None (Some 1400%Z) None None None.
 Definition ex_patch : server_cfg :=
@@ -430,7 +430,7 @@ Section HashProofs.
 
   (* what exactly happens to one user *)
   Definition hashed_from (keep : bool) (u u' : user) : Prop :=
-    u_name u' = u_name u /\ u_rest u' = u_rest u /\
+    u_name u' = u_name u /\ u_rest u' = u_rest u /\ u_quotas u' = u_quotas u /\
     match u_pw u with
     | None => u' = u
     | Some [] => u' = u
@@ -489,8 +489,8 @@ Section HashProofs.
 End HashProofs.
 
 Example ex_hash :
-  hash_users toy_hash false [ex_user [97]%N [112; 119]%N; mkUser (Some [98]%N) None (Some [1;2]%N) [7]%N] =
-  [mkUser (Some [97]%N) (Some []) (Some [256; 112; 119; 0; 97]%N) []; mkUser (Some [98]%N) None (Some [1;2]%N) [7]%N].
+  hash_users toy_hash false [ex_user [97]%N [112; 119]%N; mkUser (Some [98]%N) None (Some [1;2]%N) [] [7]%N] =
+  [mkUser (Some [97]%N) (Some []) (Some [256; 112; 119; 0; 97]%N) [] []; mkUser (Some [98]%N) None (Some [1;2]%N) [] [7]%N].
 Proof. vm_compute. reflexivity. Qed.
 
 (* ================================================================ mieru:// guard *)
@@ -706,4 +706,444 @@ Proof.
     destruct (port_ok a'); cbn [negb]; [|discriminate].
     destruct (port_ok b'); cbn [negb]; [|discriminate].
     destruct (Z.ltb b' a'); discriminate.
+Qed.
+
+(* ================================================================ validation *)
+
+Lemma first_err_zero : forall (A : Type) (f : A -> N) l,
+  first_err f l = 0%N <-> Forall (fun x => f x = 0%N) l.
+Proof.
+  intros A f. induction l as [|x t IH]; simpl; split; intro Hh; try constructor; auto.
+  - destruct (N.eqb (f x) 0) eqn:E; [apply N.eqb_eq in E; exact E | rewrite Hh in E; discriminate].
+  - destruct (N.eqb (f x) 0) eqn:E; [apply IH; exact Hh | rewrite Hh in E; discriminate].
+  - inversion Hh as [|? ? H1 H2]; subst. rewrite H1. simpl. apply IH. exact H2.
+Qed.
+
+Definition egress_ok (e : option egress_rec) : Prop :=
+  exists used, validate_proxies [] (match e with Some r => eg_proxies r | None => [] end) = Some used /\
+               forallb (rule_valid used) (match e with Some r => eg_rules r | None => [] end) = true.
+
+Definition server_patch_ok (c : server_cfg) : Prop :=
+  flat_ok (getports (s_ports c)) = true /\
+  Forall (fun u => validate_user u = 0%N) (s_users c) /\
+  mtu_valid (getz (s_mtu c)) = true /\
+  egress_ok (s_egress c) /\
+  dns_valid (s_dns c) = true /\
+  interval_valid (s_adv c) = true /\
+  tp_valid (s_tp c) = true.
+
+Lemma validate_server_patch_ok : forall c, validate_server_patch c = 0%N <-> server_patch_ok c.
+Proof.
+  intro c. unfold validate_server_patch, server_patch_ok, egress_ok. split.
+  - destruct (flat_ok (getports (s_ports c))); cbn [negb]; [|discriminate].
+    destruct (N.eqb (first_err validate_user (s_users c)) 0) eqn:Eu; cbn [negb];
+      [|intro Hh; rewrite Hh in Eu; discriminate].
+    apply N.eqb_eq in Eu. apply first_err_zero in Eu.
+    destruct (mtu_valid (getz (s_mtu c))); cbn [negb]; [|discriminate].
+    destruct (validate_proxies [] match s_egress c with Some e => eg_proxies e | None => [] end) as [used|]; [|discriminate].
+    destruct (forallb (rule_valid used) match s_egress c with Some e => eg_rules e | None => [] end) eqn:Er; cbn [negb]; [|discriminate].
+    destruct (dns_valid (s_dns c)); cbn [negb]; [|discriminate].
+    destruct (interval_valid (s_adv c)); cbn [negb]; [|discriminate].
+    destruct (tp_valid (s_tp c)); cbn [negb]; [|discriminate].
+    intros _. repeat split; auto. exists used. split; [reflexivity | exact Er].
+  - intros (Hp & Hu & Hm & (used & Hx & Hr) & Hd & Hi & Ht).
+    rewrite Hp. cbn [negb]. apply first_err_zero in Hu. rewrite Hu. cbn [N.eqb negb].
+    rewrite Hm. cbn [negb]. rewrite Hx, Hr. cbn [negb]. rewrite Hd, Hi, Ht. reflexivity.
+Qed.
+
+Lemma orelse_cases : forall (A : Type) (P : option A -> Prop) (p o : option A), P p -> P o -> P (orelse p o).
+Proof. intros A P [x|] o Hp Ho; simpl; assumption. Qed.
+
+Lemma merged_users_valid : forall (f : user -> N) dst src,
+  Forall (fun u => f u = 0%N) dst -> Forall (fun u => f u = 0%N) src ->
+  Forall (fun u => f u = 0%N) (merge_by_name uname dst src).
+Proof.
+  intros f dst src Hd Hs. apply Forall_forall. intros u Hu.
+  apply (merge_by_name_in uname) in Hu. rewrite Forall_forall in Hd, Hs. destruct Hu; auto.
+Qed.
+
+Theorem merge_server_patch_valid : forall old patch,
+  validate_server_patch old = 0%N -> validate_server_patch patch = 0%N ->
+  validate_server_patch (merge_server old patch) = 0%N.
+Proof.
+  intros old patch Ho Hp. apply validate_server_patch_ok in Ho. apply validate_server_patch_ok in Hp.
+  apply validate_server_patch_ok.
+  destruct Ho as (O1 & O2 & O3 & O4 & O5 & O6 & O7). destruct Hp as (P1 & P2 & P3 & P4 & P5 & P6 & P7).
+  unfold server_patch_ok, merge_server; cbn [s_ports s_users s_adv s_log s_mtu s_egress s_dns s_tp].
+  repeat split.
+  - destruct (s_ports patch); simpl; assumption.
+  - apply merged_users_valid; assumption.
+  - destruct (s_mtu patch); simpl; assumption.
+  - destruct (s_egress patch); simpl; assumption.
+  - destruct (s_dns patch); simpl; assumption.
+  - destruct (s_adv patch); simpl; assumption.
+  - destruct (s_tp patch); simpl; assumption.
+Qed.
+
+Lemma validate_full_server_ok : forall c,
+  validate_full_server c = 0%N <-> validate_server_patch c = 0%N /\ getports (s_ports c) <> [].
+Proof.
+  intro c. unfold validate_full_server, server_is_empty. split.
+  - destruct (N.eqb (validate_server_patch c) 0) eqn:E; cbn [negb]; [|intro Hh; rewrite Hh in E; discriminate].
+    apply N.eqb_eq in E. destruct (getports (s_ports c)) as [|b l]; cbn [is_empty_list andb].
+    + destruct (is_empty_list (s_users c)); cbn [andb]; [|discriminate].
+      destruct (s_adv c), (s_log c), (s_mtu c), (s_egress c), (s_dns c), (s_tp c); discriminate.
+    + intros _. split; [exact E | discriminate].
+  - intros [E Hne]. rewrite E. cbn [N.eqb negb]. destruct (getports (s_ports c)) as [|b l]; [congruence|]. reflexivity.
+Qed.
+
+(* what the code guarantees for a server patch: a valid configuration merged with a valid patch is valid,
+   unless the patch carries a non-nil EMPTY portBindings list *)
+Theorem merge_server_full_valid : forall old patch,
+  validate_full_server old = 0%N -> validate_server_patch patch = 0%N -> s_ports patch <> Some [] ->
+  validate_full_server (merge_server old patch) = 0%N.
+Proof.
+  intros old patch Ho Hp Hne. apply validate_full_server_ok in Ho. destruct Ho as [Ho Hports].
+  apply validate_full_server_ok. split; [apply merge_server_patch_valid; assumption|].
+  unfold merge_server; cbn [s_ports]. destruct (s_ports patch) as [[|b l]|]; simpl; [congruence | discriminate | exact Hports].
+Qed.
+
+Definition ex_full_old : server_cfg :=
+  mkServer (Some [mkPB (Some 2012%Z) (Some 2%Z) None]) [] None None None None None None.
+Definition ex_empty_ports_patch : server_cfg := mkServer (Some []) [] None None None None None None.
+
+Theorem merge_server_empty_ports_invalid :
+  validate_full_server ex_full_old = 0%N /\ validate_server_patch ex_empty_ports_patch = 0%N /\
+  validate_full_server (merge_server ex_full_old ex_empty_ports_patch) = 10%N.
+Proof. vm_compute. auto. Qed.
+
+(* ---- client *)
+
+Definition client_patch_ok (c : client_cfg) : Prop :=
+  Forall (fun p => validate_profile p = 0%N) (c_profiles c) /\
+  forallb (fun a => negb (is_empty (au_user a)) && negb (is_empty (au_pw a))) (getauth (c_auth c)) = true /\
+  interval_valid (c_adv c) = true.
+
+Lemma validate_client_patch_ok : forall c, validate_client_patch c = 0%N <-> client_patch_ok c.
+Proof.
+  intro c. unfold validate_client_patch, client_patch_ok. split.
+  - destruct (N.eqb (first_err validate_profile (c_profiles c)) 0) eqn:E; cbn [negb]; [|intro Hh; rewrite Hh in E; discriminate].
+    apply N.eqb_eq in E. apply first_err_zero in E.
+    destruct (forallb _ (getauth (c_auth c))); cbn [negb]; [|discriminate].
+    destruct (interval_valid (c_adv c)); cbn [negb]; [|discriminate]. auto.
+  - intros (H1 & H2 & H3). apply first_err_zero in H1. rewrite H1. cbn [N.eqb negb]. rewrite H2, H3. reflexivity.
+Qed.
+
+Theorem merge_client_patch_valid : forall old patch,
+  validate_client_patch old = 0%N -> validate_client_patch patch = 0%N ->
+  validate_client_patch (merge_client old patch) = 0%N.
+Proof.
+  intros old patch Ho Hp. apply validate_client_patch_ok in Ho. apply validate_client_patch_ok in Hp.
+  apply validate_client_patch_ok. destruct Ho as (O1 & O2 & O3). destruct Hp as (P1 & P2 & P3).
+  unfold client_patch_ok, merge_client; cbn [c_profiles c_auth c_adv]. repeat split.
+  - apply Forall_forall. intros p Hin. apply (merge_by_name_in pname) in Hin.
+    rewrite Forall_forall in O1, P1. destruct Hin; auto.
+  - destruct (c_auth patch); simpl; assumption.
+  - destruct (c_adv patch); simpl; assumption.
+Qed.
+
+(* a valid client configuration merged with a valid patch can be INVALID: the patch validator does not look
+   at the ports or at the active profile.  (applyClientConfig re-validates the merged configuration.) *)
+Definition ex_profile : profile :=
+  mkProfile (Some [112]%N) (Some (mkUser (Some [117]%N) (Some [120]%N) None [] []))
+            [mkEp [49]%N true [] false [mkPB (Some 2012%Z) (Some 2%Z) None]] None None None None None [].
+Definition ex_client : client_cfg :=
+  mkClient [ex_profile] (Some [112]%N) (Some 8964%Z) (Some 1080%Z) None None None None None None.
+Definition ex_bad_port_patch : client_cfg :=
+  mkClient [] None None (Some 70000%Z) None None None None None None.
+Definition ex_bad_active_patch : client_cfg :=
+  mkClient [] (Some [113]%N) None None None None None None None None.
+
+Theorem merge_client_full_can_be_invalid :
+  validate_full_client ex_client = 0%N /\
+  validate_client_patch ex_bad_port_patch = 0%N /\
+  validate_full_client (merge_client ex_client ex_bad_port_patch) = 57%N /\
+  validate_client_patch ex_bad_active_patch = 0%N /\
+  validate_full_client (merge_client ex_client ex_bad_active_patch) = 55%N.
+Proof. vm_compute. auto 10. Qed.
+
+Lemma find_last_of_in : forall (V : Type) (key : V -> bytes) xs x,
+  In x xs -> exists y, find_last key (key x) xs = Some y.
+Proof.
+  intros V key. induction xs as [|a t IH]; simpl; intros x Hin; [contradiction|].
+  destruct Hin as [Ha|Ht].
+  - subst a. destruct (find_last key (key x) t); [eexists; reflexivity|]. rewrite bytes_eqb_refl. eexists; reflexivity.
+  - destruct (IH x Ht) as [y Hy]. rewrite Hy. eexists; reflexivity.
+Qed.
+
+(* ... but a patch that leaves activeProfile, rpcPort, socks5Port and httpProxyPort alone keeps it valid *)
+Theorem merge_client_full_valid : forall old patch,
+  validate_full_client old = 0%N -> validate_client_patch patch = 0%N ->
+  c_active patch = None -> c_rpc patch = None -> c_socks5 patch = None -> c_http patch = None ->
+  validate_full_client (merge_client old patch) = 0%N.
+Proof.
+  intros old patch Ho Hp Ha Hr Hs Hh.
+  assert (Hpo : validate_client_patch old = 0%N).
+  { unfold validate_full_client in Ho. destruct (N.eqb (validate_client_patch old) 0) eqn:E;
+      [apply N.eqb_eq in E; exact E | cbn [negb] in Ho; rewrite Ho in E; discriminate]. }
+  pose proof (merge_client_patch_valid old patch Hpo Hp) as Hm.
+  unfold validate_full_client in *. rewrite Hm. rewrite Hpo in Ho. cbn [N.eqb negb] in *.
+  unfold merge_client; cbn [c_profiles c_active c_rpc c_socks5 c_http].
+  rewrite Ha, Hr, Hs, Hh. cbn [orelse getb getz].
+  destruct (c_profiles old) as [|p0 t0] eqn:Ep; [discriminate|]. cbn [is_empty_list] in Ho.
+  destruct (is_empty (getb (c_active old))) eqn:Ea; [discriminate|].
+  destruct (existsb (fun p => bytes_eqb (pname p) (getb (c_active old))) (p0 :: t0)) eqn:Ex; cbn [negb] in Ho; [|discriminate].
+  apply existsb_exists in Ex. destruct Ex as [q [Hq Hqn]]. apply bytes_eqb_eq in Hqn.
+  destruct (find_last_of_in _ pname _ _ Hq) as [y Hy].
+  pose proof (merge_by_name_spec pname (p0 :: t0) (c_profiles patch) (pname q)) as Hspec.
+  assert (Hex : exists z, find_last pname (pname q) (merge_by_name pname (p0 :: t0) (c_profiles patch)) = Some z).
+  { rewrite Hspec. destruct (find_last pname (pname q) (c_profiles patch)); eexists; [reflexivity | exact Hy]. }
+  destruct Hex as [z Hz]. apply find_last_in in Hz. destruct Hz as [Hzin Hzk].
+  destruct (merge_by_name pname (p0 :: t0) (c_profiles patch)) as [|m0 mt] eqn:Em; [contradiction|].
+  cbn [is_empty_list].
+  assert (Hex2 : existsb (fun p => bytes_eqb (pname p) (getb (c_active old))) (m0 :: mt) = true).
+  { apply existsb_exists. exists z. split; [exact Hzin|]. apply bytes_eqb_eq. congruence. }
+  rewrite Hex2. cbn [negb]. exact Ho.
+Qed.
+
+(* ---- storing a validated server configuration *)
+
+Section StoreValid.
+  Variable H : bytes -> bytes.
+  Hypothesis H_nonempty : forall x, H x <> [].
+
+  Lemma hash_user_valid : forall u, validate_user u = 0%N -> validate_user (hash_user H false u) = 0%N.
+  Proof.
+    intros u Hv. unfold hash_user. destruct (u_pw u) as [[|b pw]|] eqn:E; try exact Hv.
+    unfold validate_user in *. unfold uname in *. cbn [u_name u_pw u_hpw u_quotas getb].
+    rewrite E in Hv. cbn [getb] in Hv.
+    destruct (is_empty (getb (u_name u))); [discriminate|].
+    cbn [is_empty andb negb] in *.
+    destruct (H ((b :: pw) ++ 0%N :: getb (u_name u))) eqn:Eh; [exfalso; eapply H_nonempty; exact Eh|].
+    cbn [is_empty]. destruct (Z.ltb C20_MaxUserNameLen (blen (getb (u_name u)))); [discriminate|].
+    destruct (Z.ltb C20_MaxPasswordLen (blen (b :: pw))); [discriminate|]. exact Hv.
+  Qed.
+
+  Theorem store_valid_server : forall c,
+    validate_full_server c = 0%N ->
+    validate_full_server (store_server H c) = 0%N /\ Forall no_plaintext (s_users (store_server H c)).
+  Proof.
+    intros c Hv. split; [|apply hash_users_no_plaintext].
+    apply validate_full_server_ok in Hv. destruct Hv as [Hp Hne].
+    apply validate_full_server_ok. split; [|exact Hne].
+    apply validate_server_patch_ok in Hp. apply validate_server_patch_ok.
+    destruct Hp as (P1 & P2 & P3 & P4 & P5 & P6 & P7).
+    unfold server_patch_ok, store_server; cbn [s_ports s_users s_adv s_log s_mtu s_egress s_dns s_tp].
+    repeat split; try assumption.
+    unfold hash_users. apply Forall_forall. intros u' Hin. apply in_map_iff in Hin.
+    destruct Hin as [u [Hu Hin]]. subst u'. apply hash_user_valid. rewrite Forall_forall in P2. auto.
+  Qed.
+End StoreValid.
+
+(* ================================================================ mierus:// export then import *)
+
+Lemma split_dash_aux_digits : forall d rest cur, forallb is_digit d = true ->
+  split_dash_aux (d ++ rest) cur = split_dash_aux rest (rev d ++ cur).
+Proof.
+  induction d as [|b d IH]; intros rest cur Hd; [reflexivity|].
+  cbn [forallb] in Hd. apply andb_true_iff in Hd. destruct Hd as [Hb Hd].
+  destruct (digit_not_sign b Hb) as [_ E].
+  change ((b :: d) ++ rest) with (b :: (d ++ rest)). cbn [split_dash_aux]. rewrite E.
+  rewrite IH by assumption. cbn [rev]. rewrite <- app_assoc. reflexivity.
+Qed.
+
+Lemma split_dash_two : forall d1 d2, forallb is_digit d1 = true -> forallb is_digit d2 = true ->
+  split_dash (d1 ++ 45%N :: d2) = [d1; d2].
+Proof.
+  intros d1 d2 H1 H2. unfold split_dash. rewrite split_dash_aux_digits by assumption.
+  cbn [split_dash_aux]. rewrite N.eqb_refl. rewrite app_nil_r, rev_involutive.
+  rewrite <- (app_nil_r d2) at 1. rewrite split_dash_aux_digits by assumption.
+  cbn [split_dash_aux]. rewrite app_nil_r, rev_involutive. reflexivity.
+Qed.
+
+Lemma atoi_with_dash : forall d1 d2, d1 <> [] -> forallb is_digit d1 = true -> atoi (d1 ++ 45%N :: d2) = None.
+Proof.
+  intros [|c t] d2 Hne Hd; [congruence|].
+  assert (Hc : is_digit c = true) by (cbn [forallb] in Hd; apply andb_true_iff in Hd; tauto).
+  destruct (digit_not_sign c Hc) as [E1 E2].
+  assert (Hf : forallb is_digit ((c :: t) ++ 45%N :: d2) = false).
+  { rewrite forallb_app. cbn [forallb]. change (is_digit 45) with false. cbn [andb]. apply andb_false_r. }
+  cbn [app] in *. unfold atoi. rewrite E1, E2. cbn [orb]. rewrite Hf. reflexivity.
+Qed.
+
+Lemma atoi_small : forall d, d <> [] -> forallb is_digit d = true -> (1 <= digits_val d <= 65535)%Z ->
+  atoi d = Some (digits_val d).
+Proof.
+  intros d Hne Hd Hr. rewrite atoi_digits by assumption.
+  assert (Hi : Z.leb int64_min (digits_val d) && Z.leb (digits_val d) int64_max = true).
+  { rewrite int64_min_val, int64_max_val. apply andb_true_iff; split; apply Z.leb_le; lia. }
+  rewrite Hi. reflexivity.
+Qed.
+
+Lemma range_url : forall s a b, parse_port_range s = Some (a, b) -> parse_url_port s = inl (URange a b).
+Proof.
+  intros s a b Hp. apply parse_port_range_iff in Hp.
+  destruct Hp as (d1 & d2 & Hs & Hn1 & Hn2 & Hd1 & Hd2 & Ha & Hb & Ra & Rb & Hab). subst s.
+  unfold parse_url_port. rewrite atoi_with_dash, split_dash_two by assumption.
+  rewrite (atoi_small d1), (atoi_small d2) by (assumption || (rewrite <- ?Ha, <- ?Hb; assumption)).
+  rewrite <- Ha, <- Hb.
+  assert (Pa : port_ok a = true) by (unfold port_ok; apply andb_true_iff; split; apply Z.leb_le; lia).
+  assert (Pb : port_ok b = true) by (unfold port_ok; apply andb_true_iff; split; apply Z.leb_le; lia).
+  rewrite Pa, Pb. cbn [negb].
+  assert (Hlt : Z.ltb b a = false) by (apply Z.ltb_ge; lia). rewrite Hlt. reflexivity.
+Qed.
+
+Definition binding_unambiguous (b : port_binding) : Prop := getz (pb_port b) = 0%Z \/ getb (pb_range b) = [].
+Definition port_text (itoa : Z -> bytes) (x : bytes + Z) : bytes := match x with inl r => r | inr n => itoa n end.
+
+Section LinkRoundTrip.
+  Variable itoa : Z -> bytes.
+  Variable b64 : bytes -> bytes.
+  Variables mux_name hs_name : Z -> bytes.
+  (* the library steps invert each other *)
+  Hypothesis itoa_atoi : forall n, (- 2 ^ 31 <= n < 2 ^ 31)%Z -> atoi (itoa n) = Some n.
+  Hypothesis b64_empty : forall x, b64 x = [] <-> x = [].
+  Hypothesis mux_name_nonempty : forall v, mux_name v <> [].
+  Hypothesis hs_name_nonempty : forall v, hs_name v <> [].
+
+  Lemma binding_roundtrip : forall b, flat_binding b <> None -> binding_unambiguous b ->
+    parse_url_port (port_text itoa (export_port b)) = inl (fst (binding_view b)).
+  Proof.
+    intros b Hv Hu. unfold binding_view, export_port, flat_binding in *.
+    destruct (Z.eqb (getz (pb_proto b)) C20_TransportUnknown); [congruence|].
+    destruct (is_empty (getb (pb_range b))) eqn:Er; cbn [negb port_text fst].
+    - assert (Hr : getb (pb_range b) = []) by (destruct (getb (pb_range b)); [reflexivity | discriminate]).
+      rewrite Hr in Hv.
+      destruct (Z.eqb (getz (pb_port b)) 0) eqn:E0; cbn [negb] in Hv.
+      + exfalso. apply Hv. reflexivity.
+      + destruct (port_ok (getz (pb_port b))) eqn:Ep; cbn [andb] in Hv; [|congruence].
+        unfold parse_url_port. pose proof Ep as Ep'. unfold port_ok in Ep'.
+        apply andb_true_iff in Ep'. destruct Ep' as [A B]. apply Z.leb_le in A. apply Z.leb_le in B.
+        rewrite itoa_atoi by lia. rewrite Ep. reflexivity.
+    - destruct Hu as [Hu|Hu]; [|rewrite Hu in Er; discriminate].
+      rewrite Hu in Hv. cbn [Z.eqb negb] in Hv.
+      destruct (parse_port_range (getb (pb_range b))) as [[a z]|] eqn:Ep; [|congruence].
+      apply range_url. exact Ep.
+  Qed.
+
+  Lemma ports_roundtrip : forall bs pre acc,
+    Forall (fun b => flat_binding b <> None /\ binding_unambiguous b) bs ->
+    parse_url_ports (length pre) (map (port_text itoa) (map export_port bs))
+                    (pre ++ map (fun b => getz (pb_proto b)) bs) acc =
+    Ok (rev acc ++ map binding_view bs).
+  Proof.
+    induction bs as [|b t IH]; intros pre acc Hall; cbn [map parse_url_ports].
+    - rewrite app_nil_r. reflexivity.
+    - inversion Hall as [|? ? [Hv Hu] Ht]; subst.
+      rewrite (binding_roundtrip b Hv Hu).
+      rewrite nth_error_app2 by lia. rewrite Nat.sub_diag. cbn [nth_error].
+      replace (S (length pre)) with (length (pre ++ [getz (pb_proto b)])) by (rewrite app_length; simpl; lia).
+      replace (pre ++ getz (pb_proto b) :: map (fun b0 => getz (pb_proto b0)) t)
+        with ((pre ++ [getz (pb_proto b)]) ++ map (fun b0 => getz (pb_proto b0)) t) by (rewrite <- app_assoc; reflexivity).
+      rewrite IH by assumption. cbn [rev]. rewrite <- app_assoc.
+      unfold binding_view at 2. reflexivity.
+  Qed.
+
+  Lemma flat_ok_forall : forall bs, flat_ok bs = true -> Forall (fun b => flat_binding b <> None) bs.
+  Proof.
+    intros bs Hf. unfold flat_ok in Hf. rewrite forallb_forall in Hf. apply Forall_forall.
+    intros b Hin. specialize (Hf b Hin). destruct (flat_binding b); [discriminate | discriminate].
+  Qed.
+
+  Lemma is_empty_false : forall x : bytes, is_empty x = false <-> x <> [].
+  Proof. intros [|a l]; simpl; split; intro Hh; congruence. Qed.
+
+  (* for every validated profile, every server of it and unambiguous bindings: if the exporter produces a link,
+     the importer returns exactly the part of the profile a link carries *)
+  Theorem link_roundtrip : forall p s f,
+    validate_profile p = 0%N -> In s (p_servers p) ->
+    Forall binding_unambiguous (se_bindings s) ->
+    export_server p s = Some f ->
+    simple_link (link_as_parsed itoa b64 mux_name hs_name f) = Ok (simple_view p s f).
+  Proof.
+    intros p s f Hv Hin Hun He.
+    (* facts from validation *)
+    unfold validate_profile in Hv.
+    destruct (is_empty (pname p)) eqn:En; [discriminate|].
+    destruct (is_empty (uname (puser p))) eqn:Eu; [discriminate|].
+    destruct (is_empty (getb (u_pw (puser p))) && is_empty (getb (u_hpw (puser p)))); [discriminate|].
+    destruct (Z.ltb C20_MaxUserNameLen (blen (uname (puser p)))); [discriminate|].
+    destruct (negb (is_empty (getb (u_pw (puser p)))) && Z.ltb C20_MaxPasswordLen (blen (getb (u_pw (puser p))))); [discriminate|].
+    destruct (negb (is_empty_list (u_quotas (puser p)))); [discriminate|].
+    destruct (is_empty_list (p_servers p)); [discriminate|].
+    destruct (N.eqb (first_err server_ep_check (p_servers p)) 0) eqn:Es; cbn [negb] in Hv;
+      [|rewrite Hv in Es; discriminate].
+    apply N.eqb_eq in Es. apply first_err_zero in Es. rewrite Forall_forall in Es. specialize (Es s Hin).
+    destruct (mtu_valid (getz (p_mtu p))) eqn:Em; cbn [negb] in Hv; [|discriminate]. clear Hv.
+    unfold server_ep_check in Es.
+    destruct (is_empty (se_ip s) && is_empty (se_domain s)); [discriminate|].
+    destruct (negb (is_empty (se_ip s)) && negb (se_ip_ok s)); [discriminate|].
+    destruct (is_empty_list (se_bindings s)) eqn:Eb; [discriminate|].
+    destruct (flat_ok (se_bindings s)) eqn:Ef; cbn [negb] in Es; [|discriminate]. clear Es.
+    (* the exported fields *)
+    unfold export_server in He. rewrite En, Eu in He. cbn [orb] in He.
+    destruct (is_empty (getb (u_pw (puser p)))) eqn:Epw; [discriminate|].
+    destruct (if negb (is_empty (se_domain s)) then Some (se_domain s, se_domain_is_ip s)
+              else if negb (is_empty (se_ip s)) then Some (se_ip s, se_ip_ok s) else None)
+      as [[host isip]|] eqn:Eh; [|discriminate].
+    assert (Hhost : is_empty host = false).
+    { destruct (is_empty (se_domain s)) eqn:Ed; cbn [negb] in Eh.
+      - destruct (is_empty (se_ip s)) eqn:Ei; cbn [negb] in Eh; [discriminate|]. inversion Eh; subst. exact Ei.
+      - inversion Eh; subst. exact Ed. }
+    rewrite Eb in He. inversion He; subst f. clear He.
+    unfold simple_link, link_as_parsed, simple_view.
+    cbn [su_url su_has_user su_user su_pw su_host su_host_is_ip su_query_ok su_profile su_mtu su_mux su_mux_val
+         su_hs su_hs_val su_tp su_tp_status su_ports su_protos ul_ok ul_scheme ul_opaque
+         lf_user lf_pw lf_host lf_host_is_ip lf_profile lf_mtu lf_mux lf_hs lf_tp lf_ports lf_protos negb is_empty].
+    rewrite bytes_eqb_refl. cbn [negb]. rewrite Eu, Epw, Hhost, En.
+    (* MTU *)
+    assert (Hmtu : (if is_empty match p_mtu p with Some m => itoa m | None => [] end then Some None
+                    else match atoi match p_mtu p with Some m => itoa m | None => [] end with
+                         | Some m => Some (Some (to_int32 m)) | None => None end) = Some (p_mtu p)).
+    { destruct (p_mtu p) as [m|]; [|reflexivity].
+      unfold mtu_valid, zin in Em. cbn [getz] in Em.
+      assert (Hr : (- 2 ^ 31 <= m < 2 ^ 31)%Z).
+      { apply orb_true_iff in Em. destruct Em as [E0|E1].
+        - apply Z.eqb_eq in E0. subst m. split; [apply Z.leb_le; reflexivity | apply Z.ltb_lt; reflexivity].
+        - apply andb_true_iff in E1. destruct E1 as [A B]. apply Z.leb_le in A. apply Z.leb_le in B.
+          unfold C20_MtuMin in A. unfold C20_MtuMax in B. split; [|].
+          + apply Z.le_trans with 0%Z; [apply Z.leb_le; reflexivity | lia].
+          + apply Z.le_lt_trans with 1500%Z; [exact B | apply Z.ltb_lt; reflexivity]. }
+      pose proof (itoa_atoi m Hr) as Ha.
+      destruct (itoa m) as [|c t] eqn:Ei; [cbn in Ha; discriminate|]. cbn [is_empty]. rewrite Ha.
+      unfold to_int32. f_equal. f_equal.
+      rewrite Z.mod_small; [lia|]. change (2 ^ 32)%Z with 4294967296%Z. change (2 ^ 31)%Z with 2147483648%Z in *. lia. }
+    rewrite Hmtu.
+    (* traffic pattern *)
+    assert (Htp : is_empty match match p_tp p with Some t => Some (tp_raw t) | None => None end with Some raw => b64 raw | None => [] end =
+                  negb match p_tp p with Some t => negb (is_empty (tp_raw t)) | None => false end).
+    { destruct (p_tp p) as [t|]; [|reflexivity]. rewrite negb_involutive.
+      destruct (tp_raw t) as [|x l] eqn:Er.
+      - assert (Hb : b64 [] = []) by (apply b64_empty; reflexivity). rewrite Hb. reflexivity.
+      - cbn [is_empty]. apply is_empty_false. intro Hb. apply (proj1 (b64_empty _)) in Hb. discriminate Hb. }
+    rewrite Htp. change (N.eqb 0 1) with false. change (N.eqb 0 0) with true. rewrite !andb_false_r. cbn [negb].
+    rewrite !map_length, Nat.eqb_refl. cbn [negb].
+    pose proof (ports_roundtrip (se_bindings s) [] []) as Hp. cbn [length app rev] in Hp.
+    change (fun x : bytes + Z => match x with inl r => r | inr n => itoa n end) with (port_text itoa).
+    rewrite Hp.
+    2:{ apply Forall_forall. intros b Hb. split.
+        - pose proof (flat_ok_forall _ Ef) as Hf. rewrite Forall_forall in Hf. auto.
+        - rewrite Forall_forall in Hun. auto. }
+    f_equal. f_equal.
+    - destruct (p_mux p) as [v|]; cbn [getz is_empty]; [|reflexivity].
+      destruct (mux_name v) eqn:E; [exfalso; eapply mux_name_nonempty; exact E | reflexivity].
+    - destruct (p_hs p) as [v|]; cbn [getz is_empty]; [|reflexivity].
+      destruct (hs_name v) eqn:E; [exfalso; eapply hs_name_nonempty; exact E | reflexivity].
+    - apply negb_involutive.
+  Qed.
+End LinkRoundTrip.
+
+(* without the premise on bindings the round trip can fail for a VALIDATED profile: a binding with both a port
+   and a (garbage) port range is accepted by FlatPortBindings (it looks at the port) but exported by its range *)
+Definition ex_ambiguous_profile : profile :=
+  mkProfile (Some [112]%N) (Some (mkUser (Some [117]%N) (Some [120]%N) None [] []))
+            [mkEp [49]%N true [] false [mkPB (Some 5%Z) (Some 2%Z) (Some [120]%N)]] None None None None None [].
+Theorem link_roundtrip_ambiguous_binding_fails :
+  validate_profile ex_ambiguous_profile = 0%N /\
+  exists s f, In s (p_servers ex_ambiguous_profile) /\ export_server ex_ambiguous_profile s = Some f /\
+    forall itoa b64 mn hn, simple_link (link_as_parsed itoa b64 mn hn f) = Err 14.
+Proof.
+  split; [vm_compute; reflexivity|].
+  eexists. eexists. split; [left; reflexivity|]. split; [vm_compute; reflexivity|].
+  intros. vm_compute. reflexivity.
 Qed.
